@@ -475,6 +475,55 @@ impl B {
         }
     }
 
+    /// One freshly built finder shared (same value, through an Arc) with every
+    /// other thread; all of them search short and long haystacks with it at
+    /// once, so that the finder's first searches race.
+    fn scn_shared_finder_race(&mut self, max_hay: usize, max_needle: usize, searches: usize) {
+        if self.full() || self.threads.len() < 2 {
+            return;
+        }
+        let (needle_b, hay0) = inputs::sub_pair(&mut self.rng, max_hay, max_needle);
+        let rev = self.rng.chance(1, 4);
+        let needle = self.buf(needle_b.clone(), None);
+        let cfg = self.finder_cfg();
+        let f = self.slot(0);
+        self.push(0, Op::FinderNew { rev, needle, cfg, dst: f });
+        let n = self.threads.len();
+        let mut holders = vec![(0usize, f)];
+        for to in 1..n {
+            self.push(0, Op::Share { s: f, to });
+            let rd = self.slot(to);
+            self.push(to, Op::Recv { from: 0, dst: rd });
+            holders.push((to, rd));
+        }
+        // haystacks: short ones (below 16 bytes / below the vector minimum)
+        // containing the needle, and ordinary ones
+        let mut hays = vec![self.buf(hay0, None)];
+        for _ in 0..searches {
+            if self.full() {
+                break;
+            }
+            let mut h: Vec<u8> = Vec::new();
+            let pad = self.rng.range(0, 12);
+            h.extend(std::iter::repeat(b'-').take(pad));
+            h.extend_from_slice(&needle_b);
+            let pad2 = self.rng.range(0, 6);
+            h.extend(std::iter::repeat(b'-').take(pad2));
+            h.truncate(max_hay.max(needle_b.len()));
+            hays.push(self.buf(h, None));
+        }
+        for &(th, s) in &holders {
+            for _ in 0..searches.max(1) {
+                let hay = *self.rng.pick(&hays);
+                let via_ref = self.rng.chance(1, 5);
+                self.push(th, Op::FinderFind { f: s, hay, via_ref });
+            }
+        }
+        for &(th, s) in &holders {
+            self.push(th, Op::Drop { s });
+        }
+    }
+
     fn scn_memmem_oneshots(&mut self, t: usize, k: usize, max_hay: usize, max_needle: usize) {
         for _ in 0..k {
             if self.full() {
@@ -748,7 +797,8 @@ fn draw_env(rng: &mut Rng, tgt: &Target, nthreads: usize, concurrent_faults: boo
         // the explicit fault is not needed (and would only mask it)
         stale_pct = 0;
     }
-    Env { krate, cpu, dispatch, sched, stale_pct, poison: 0 }
+    let tick_preempt = if concurrent_faults && nthreads > 1 && !tgt.miri { *rng.pick(&[0u8, 0, 3, 10, 40]) } else { 0 };
+    Env { krate, cpu, dispatch, sched, stale_pct, poison: 0, tick_preempt }
 }
 
 /// Generates episode family `index` of a profile.
@@ -756,6 +806,7 @@ pub fn generate(profile: Profile, verif_seed: u64, index: u64, tgt: Target) -> F
     let seed = episode_seed(verif_seed, profile.number(), index);
     let mut rng = Rng::new(seed);
     let nthreads = match profile {
+        Profile::C15 if tgt.miri => rng.range(2, 3),
         Profile::C15 => rng.range(2, 4),
         Profile::C06 | Profile::C07 | Profile::C08 | Profile::C16 => *rng.pick(&[1usize, 1, 2, 3]),
         Profile::C05 | Profile::C14 | Profile::C17 => *rng.pick(&[1usize, 1, 1, 2]),
@@ -774,6 +825,30 @@ pub fn generate(profile: Profile, verif_seed: u64, index: u64, tgt: Target) -> F
     let mut variants: Vec<Env> = Vec::new();
     let mut diff_kind = VKind::Config;
     match profile {
+        Profile::C15 if tgt.miri => {
+            // the interpreter is ~10^4 times slower and its race detector makes
+            // threads dearer still: tiny episodes that are nothing but races
+            let (a0, n0, h0) = inputs::byte_case(&mut b.rng, 48);
+            let shared_hay = b.buf(h0, None);
+            let f0 = *b.rng.pick(&[ByteFn::Find, ByteFn::Rfind, ByteFn::Count]);
+            for t in 0..nthreads {
+                let mut n = n0;
+                n[0] = n[0].wrapping_add(t as u8);
+                let arity = if matches!(f0, ByteFn::Count) { 1 } else { a0 };
+                b.push(t, Op::Byte { be: Backend::Top, f: f0, arity, n, hay: shared_hay, raw: RawForm::Slice });
+                if b.rng.chance(1, 2) {
+                    b.scn_byte_oneshots(t, 1, true, false, 40);
+                }
+            }
+            if b.rng.chance(2, 3) {
+                b.scn_shared_finder_race(40, 40, 2);
+            }
+            env.dispatch = Dispatch::Fresh;
+            let reference =
+                Env { krate: env.krate, cpu: env.cpu, dispatch: Dispatch::Warm, sched: Sched::Sequential, stale_pct: 0, poison: 0, tick_preempt: 0 };
+            variants = vec![reference, env.clone()];
+            diff_kind = VKind::Schedule;
+        }
         Profile::C15 => {
             // every thread starts by racing through `detect`
             let hot_slot_first = b.rng.chance(2, 3);
@@ -798,11 +873,15 @@ pub fn generate(profile: Profile, verif_seed: u64, index: u64, tgt: Target) -> F
             for _ in 0..scen {
                 let t = b.rng.usize_below(nthreads.saturating_sub(1).max(1));
                 let (mh, mn) = (b.max_hay(400), 80);
-                match b.rng.below(4) {
+                match b.rng.below(6) {
                     0 => b.scn_byte_iter(t, false, true, mh),
                     1 => b.scn_finder_reuse(t, mh, mn, false),
                     2 => b.scn_sub_iter(t, mh, mn, false),
-                    _ => b.scn_byte_iter(t, true, true, mh),
+                    3 => b.scn_byte_iter(t, true, true, mh),
+                    _ => {
+                        let k = b.rng.range(1, 4);
+                        b.scn_shared_finder_race(mh, mn, k)
+                    }
                 }
             }
             for t in 0..nthreads {
@@ -819,7 +898,7 @@ pub fn generate(profile: Profile, verif_seed: u64, index: u64, tgt: Target) -> F
             // reference: the same programs, one thread after the other, on a
             // process whose dispatch cache is already warm, no faults
             let reference =
-                Env { krate: env.krate, cpu: env.cpu, dispatch: Dispatch::Warm, sched: Sched::Sequential, stale_pct: 0, poison: 0 };
+                Env { krate: env.krate, cpu: env.cpu, dispatch: Dispatch::Warm, sched: Sched::Sequential, stale_pct: 0, poison: 0, tick_preempt: 0 };
             variants = vec![reference, env.clone()];
             diff_kind = VKind::Schedule;
         }
@@ -892,19 +971,37 @@ pub fn generate(profile: Profile, verif_seed: u64, index: u64, tgt: Target) -> F
         }
         Profile::C09 => {
             env.dispatch = Dispatch::Warm;
-            let (mh, mn) = (b.max_hay(700), 300);
-            let k = b.rng_range(2, 6);
-            b.scn_byte_oneshots(0, k, true, false, mh);
-            b.scn_cross_backend(0, 2, mh, mn);
-            let ch = b.rng.chance(1, 2);
-            b.scn_byte_iter(0, ch, true, mh);
-            let k = b.rng_range(1, 3);
-            b.scn_memmem_oneshots(0, k, mh, mn);
-            if b.rng.chance(2, 3) {
-                b.scn_finder_reuse(0, mh, mn, false);
-            }
-            if b.rng.chance(2, 3) {
-                b.scn_sub_iter(0, mh, mn, false);
+            if tgt.scale_small {
+                // cross-target episodes (run under interpreters): what differs
+                // between targets is the vector/SWAR byte-search code and the
+                // packed-pair searcher, so spend the budget there, on short
+                // haystacks (cost under Miri is per byte scanned)
+                let k = b.rng_range(16, 30);
+                b.scn_byte_oneshots(0, k, true, false, 96);
+                b.scn_cross_backend(0, 3, 96, 40);
+                b.scn_byte_iter(0, false, true, 96);
+                b.scn_byte_iter(0, true, true, 96);
+                b.scn_memmem_oneshots(0, 2, 160, 40);
+                if b.rng.chance(2, 3) {
+                    b.scn_sub_iter(0, 160, 40, false);
+                } else {
+                    b.scn_finder_reuse(0, 160, 40, false);
+                }
+            } else {
+                let (mh, mn) = (b.max_hay(700), 300);
+                let k = b.rng_range(2, 6);
+                b.scn_byte_oneshots(0, k, true, false, mh);
+                b.scn_cross_backend(0, 2, mh, mn);
+                let ch = b.rng.chance(1, 2);
+                b.scn_byte_iter(0, ch, true, mh);
+                let k = b.rng_range(1, 3);
+                b.scn_memmem_oneshots(0, k, mh, mn);
+                if b.rng.chance(2, 3) {
+                    b.scn_finder_reuse(0, mh, mn, false);
+                }
+                if b.rng.chance(2, 3) {
+                    b.scn_sub_iter(0, mh, mn, false);
+                }
             }
             // the finder configuration must be the default one here: this
             // property is about backends/builds, not heuristics
@@ -924,7 +1021,7 @@ pub fn generate(profile: Profile, verif_seed: u64, index: u64, tgt: Target) -> F
             for &krate in &[Krate::Std, Krate::Alloc, Krate::Core] {
                 for &cpu in cpus {
                     let dispatch = if b.rng.chance(1, 2) { Dispatch::Fresh } else { Dispatch::Warm };
-                    variants.push(Env { krate, cpu, dispatch, sched: Sched::Sequential, stale_pct: 0, poison: 0 });
+                    variants.push(Env { krate, cpu, dispatch, sched: Sched::Sequential, stale_pct: 0, poison: 0, tick_preempt: 0 });
                 }
             }
             diff_kind = VKind::Config;
